@@ -125,7 +125,7 @@ def spec_md_valid(doc) -> bool:
                 return False
             try:
                 npdt = np.dtype(dt)
-            except TypeError:
+            except (TypeError, ValueError, SyntaxError):   # numpy answers comma strings ("," / "i4,,") with ValueError / SyntaxError
                 return False
             if ("str" if npdt.kind == "U" else npdt.name) not in SPEC_DTYPES:
                 return False
